@@ -42,6 +42,10 @@ Init == \/ /\ prop = "C05" /\ n \in 1..MaxN /\ bounded \in BOOLEAN
            \* special: hard restarts with extra arguments for h and for the proximal operator (every run of the restart loop must hand them on)
            /\ special \in {"none"} \cup (IF reg = "l1" /\ ~bounded /\ \A i \in 1..n : status[i] = "pos" THEN {"zero_residual_on_init_grid"} ELSE {})
                                    \cup (IF args THEN {"hard_restarts"} ELSE {})
+                                   \* averaging: every point sampled twice (deterministic residuals, so the optimum is the same): the regulariser of a
+                                   \* re-sampled point is h at THAT point.  lh_other_type: the Lipschitz constant given as a positive number that is not a
+                                   \* Python float (int for the l2-norm, numpy.float32 for l1) - "a positive number" is all the guide asks for
+                                   \cup (IF ~args THEN {"averaging", "lh_other_type"} ELSE {})
 Next == UNCHANGED vars
 Spec == Init /\ [][Next]_vars
 Emit == PrintT("PROBLEM" \o ToJson([prop |-> prop, n |-> n, status |-> status, mclass |-> mclass, x0class |-> x0class, scaling |-> scaling,
